@@ -246,6 +246,18 @@ def _body_taken(lf):
     if len(dr) == 1:
         r = look(dr[0][4][2][1])
         return r[0] == "agg" and r[1].startswith("std::ops::RangeTo") and not r[1].startswith("std::ops::RangeToInclusive") and is_cl(r[3][0])
+    tk = [e for e in lf.events if e[0] == "call" and e[3] in ("std::mem::take", "core::mem::take") and self_field(e[4][2][0], "body_vec")]
+    if not dr and len(tk) == 1:
+        # the whole accumulator moved out: it is "the first content_length bytes, nothing left" exactly when the path
+        # established len(body_vec) == content_length before
+        for (t, c, _bb) in lf.conds:
+            t = look(t)
+            if t[0] == "bin" and t[1] in ("Eq", "Ne") and truth(c) is not None and (truth(c) == (t[1] == "Eq")):
+                for a, b in ((t[2], t[3]), (t[3], t[2])):
+                    la = look(a)
+                    if is_call(la, "len") and self_field(la[2][0], "body_vec") and is_cl(b):
+                        return True
+        return False
     so = [e for e in lf.events if e[0] == "call" and last_seg(e[3]) == "split_off" and "Vec" in e[3] and self_field(e[4][2][0], "body_vec")]
     rp = [e for e in lf.events if e[0] == "call" and e[3] in ("std::mem::replace",) and self_field(e[4][2][0], "body_vec")]
     if not dr and len(so) == 1 and len(rp) == 1 and is_cl(so[0][4][2][1]):
